@@ -44,6 +44,7 @@ def kitchen_sink():
         {"name": "real_bag", "def": AGG("BAG", 0, None, T("real"))},
         {"name": "anything", "def": {"k": "select", "members": ["real_bag", "int_list", "wide"]}},
         # a specialised defined type listed before the type it is defined from (positive_ratio_measure / ratio_measure in the AP schemas)
+        {"name": "doc_status", "def": {"k": "enum", "items": ["draft", "finaldraft", "final", "fin"]}},   # prefixes, longer first
         {"name": "pos_ratio", "def": D("ratio")},
         {"name": "amount", "def": {"k": "select", "members": ["pos_ratio", "ratio", "cnt"]}},
     ]
@@ -86,9 +87,10 @@ def kitchen_sink():
         ENT("dated", [A("yr", T("int"))]),
         ENT("record", [A("payload", T("binary"))], supers=["named", "dated"]),
         ENT("priced", [A("amt", D("amount")), A("amts", AGG("LIST", 0, None, D("amount")))]),
+        ENT("document", [A("st", D("doc_status")), A("history", AGG("LIST", 0, None, D("doc_status"))), A("prev", D("doc_status"), True)]),
     ]
     return {"name": "kitchen_sink", "types": types, "entities": ents,
             "legal_complex": [["base", "left", "right"], ["vehicle", "powered", "wheeled"], ["craft", "plane", "drone"]],
             "simple_ok": ["point", "circle", "poly", "bag_of_stuff", "base", "left", "right", "both", "wrapper", "wrapper_d",
-                          "wide", "narrow", "class", "union", "vehicle", "boat", "plane", "drone", "named", "dated", "record", "priced"],
+                          "wide", "narrow", "class", "union", "vehicle", "boat", "plane", "drone", "named", "dated", "record", "priced", "document"],
             "features": {"hand_written": True}}
